@@ -26,6 +26,16 @@ WEBDAV_METHODS = ['CHECKIN', 'CHECKOUT', 'COPY', 'LOCK', 'MKCOL', 'MOVE', 'PROPF
                   'REPORT', 'UNCHECKIN', 'UNLOCK', 'UPDATE', 'VERSION-CONTROL']
 STANDARD = HTTP_METHODS + WEBDAV_METHODS
 META = ['WEBSOCKET']
+CUSTOM = []     # verbs enabled for this process through FALCON_CUSTOM_HTTP_METHODS (docs: "Custom HTTP Methods")
+
+
+def configure_custom(methods):
+    """Custom verbs are HTTP methods like any other: dispatched, 405'ed and listed in Allow."""
+    CUSTOM[:] = list(methods)
+
+
+def http_verbs():
+    return STANDARD + CUSTOM
 
 _FIELD = re.compile(r'^\{([A-Za-z_][A-Za-z0-9_]*)(?::(int))?\}$')
 _CLEAN_REL = re.compile(r'^[a-z0-9_]+(\.[a-z0-9]+)?(/[a-z0-9_]+(\.[a-z0-9]+)?)*$')
@@ -40,7 +50,7 @@ def responder_name(method, suffix=None):
 
 def implemented(callable_attrs, suffix=None):
     """Methods (incl. the WEBSOCKET meta method) a resource implements for a route with this suffix."""
-    return {m for m in STANDARD + META if responder_name(m, suffix) in callable_attrs}
+    return {m for m in http_verbs() + META if responder_name(m, suffix) in callable_attrs}
 
 
 def parse_template(template):
@@ -152,13 +162,13 @@ class Model:
             alts = []
             for template, res_idx, suffix, kwargs in matched:
                 impl = implemented(self.resources[res_idx], suffix)
-                http_impl = sorted(m for m in impl if m in STANDARD)
+                http_impl = sorted(m for m in impl if m not in META)
                 if method in impl:
                     alt = {'cls': 'responder', 'res': res_idx, 'attr': responder_name(method, suffix),
                            'kwargs': kwargs}
                 elif method == 'OPTIONS':
                     alt = {'cls': 'auto-options', 'allow': http_impl}
-                elif method in STANDARD:
+                elif method in http_verbs():
                     alt = {'cls': '405', 'allow': sorted(set(http_impl) | {'OPTIONS'})}
                 else:
                     alt = {'cls': 'unknown-verb'}
